@@ -11,6 +11,7 @@ Families (all fully enumerated, shortest first):
 """
 import time
 
+from mc.core import pool as poolmod
 from mc.core.runner import InputProp, exc_signature
 from mc.core.space import Seqs, Product, Concat, Items
 from mc.gen import wikitext as W
@@ -72,8 +73,8 @@ class C01(InputProp):
                    "polynomial growth is measured on pumped families (exponent between n=128 and n=512), not proved")
     chunk = 250
     soft_timeout = 20.0
-    hard_timeout = 60.0
-    budget_s = {"quick": 600.0, "thorough": 7200.0}
+    hard_timeout = 150.0  # (per case; a pump case is up to eight parses of up to soft_timeout each)
+    budget_s = {"quick": 1800.0, "thorough": 7200.0}
 
     def prepare(self, tier):
         from mwlib.parser.refine import uparser
@@ -228,15 +229,19 @@ class C01(InputProp):
             p, frame = c[0] + c[1], c[2]
         db = self.db("en")
         times = {}
+        texts = {}
+        lo, hi = 128, 512  # (the two lengths whose times end up in times[128] and times[512])
         for n in (32, 128, 512):
             if n == 512 and times.get(128, 0) > 1.0:
                 # a lexeme that is expensive by itself (a tag that transcludes pages, a big image map): the growth exponent is
                 # measured between 32 and 128 repetitions, where it is as visible and four times cheaper
                 times[512], times[128] = times[128], times[32]
+                lo, hi = 32, 128
                 break
-            text = self.frames[frame] % (p * n)
+            text = texts[n] = self.frames[frame] % (p * n)
             best = None
             for rep in range(2 if n == 512 else 1):
+                poolmod.arm(self.soft_timeout)  # (the watchdog is per call of parse_string; a pump case makes three to eight)
                 t0 = time.process_time()
                 try:
                     self.parse_once(text, db, "en")
@@ -257,10 +262,33 @@ class C01(InputProp):
         import math
         expo = math.log(max(times[512], 1e-6) / max(times[128], 1e-6)) / math.log(4.0)
         if times[512] > 1.0 and expo > 3.3:
+            # An exponent is a quotient of two CPU times, and a CPU time is not a property of the code alone: on a busy or freshly
+            # restored machine one measurement was seen 2.4 times too large, and '<pre>' pumped (exponent 2.8 on the idle sandbox)
+            # is only a factor 2 in t(512) away from 3.3.  What is judged is therefore the SMALLEST exponent of up to three
+            # rounds, each round measuring the short and the long text one right after the other.
+            rounds = 2 if times[512] < 2.5 else 1 if times[512] < 5.0 else 0
+            for _ in range(rounds):
+                try:
+                    a = min(self.cpu_of(texts[lo], db) for _ in range(2))
+                    b = self.cpu_of(texts[hi], db)
+                except Exception:
+                    break
+                if b / max(a, 1e-6) < times[512] / max(times[128], 1e-6):
+                    times[512], times[128] = b, a
+                expo = math.log(max(times[512], 1e-6) / max(times[128], 1e-6)) / math.log(4.0)
+                if expo <= 3.3:
+                    break
+        if times[512] > 1.0 and expo > 3.3:
             viol.append({"sig": "superpolynomial-growth", "msg": "%r pumped in frame %s: t(128)=%.3fs t(512)=%.3fs exponent %.2f" % (
                 p, frame, times[128], times[512], expo)})
         return {"key": ("pump", round(expo) if times[512] > 0.05 else 0), "steps": 3, "viol": viol,
                 "counters": {"pump_over_1s": 1 if times[512] > 1.0 else 0, "pump_exponent_ge2": 1 if (times[512] > 0.2 and expo >= 1.8) else 0}}
+
+    def cpu_of(self, text, db):
+        poolmod.arm(self.soft_timeout)
+        t0 = time.process_time()
+        self.parse_once(text, db, "en")
+        return time.process_time() - t0
 
     def timeout_violation(self, case):
         desc = self.describe(case)
